@@ -337,6 +337,62 @@ func featC07(m *gen.Mixed, ts *gen.TieSetup, p *modelParams) {
 			m.ForceGraded[h-1] = rng.Intn(2) == 0
 		}
 	}
+	// equal spot rates, different averages (seeded change M181): at a few averaging-era heights the records
+	// quote pEUR, pGBP and pCAD at exactly the pUSD rate, while their windows still hold the ordinary
+	// quotes — conversions between assets whose spot rates coincide still go through min/max with the average
+	eqKs := keys("c07-eq", p.Seed, 4)
+	fundMany(m, ts.Whale, first, eqKs, func(i int) uint64 { return 4_000 * 1e8 })
+	m.Schedule(first+3, func(v *gen.View, s *forge.BlockSpec) {
+		for i, k := range eqKs[:2] { // two of them hold pGBP / pCAD for the way back into pUSD
+			if v.Balances.Get(k.FA(), fat2.PTickerUSD) > 2000e8 {
+				s.Tx = append(s.Tx, forge.SignedBatch([]forge.Tx{forge.Conversion(k.FA(), fat2.PTickerUSD, 1500e8, []fat2.PTicker{fat2.PTickerGBP, fat2.PTickerCAD}[i])}, m.W.EntryTime(first+3)+int64(70+i), k))
+			}
+		}
+	})
+	for h := e.PIP10 + 34; h+2 < tip; h += 5 {
+		h := h
+		if m.ForceUngraded[h] || m.ForceUngraded[h-1] {
+			continue
+		}
+		m.ForceGraded[h] = true
+		m.Schedule(h-1, func(v *gen.View, s *forge.BlockSpec) {
+			for i, k := range eqKs {
+				a := k.FA()
+				src, dst := fat2.PTickerUSD, []fat2.PTicker{fat2.PTickerEUR, fat2.PTickerGBP, fat2.PTickerCAD}[int(h+uint32(i))%3]
+				if i < 2 && h%2 == 0 {
+					src, dst = []fat2.PTicker{fat2.PTickerGBP, fat2.PTickerCAD}[i], []fat2.PTicker{fat2.PTickerUSD, fat2.PTickerEUR}[int(h/2)%2]
+				}
+				if bal := v.Balances.Get(a, src); bal > 20e8 {
+					s.Tx = append(s.Tx, forge.SignedBatch([]forge.Tx{forge.Conversion(a, src, 10e8+uint64(h)+uint64(i), dst)}, m.W.EntryTime(h-1)+int64(80+i), k))
+				}
+			}
+		})
+		m.Schedule(h, func(v *gen.View, s *forge.BlockSpec) {
+			if len(s.OPR) < 25 {
+				return
+			}
+			sp := map[string]uint64{}
+			for k, x := range m.W.Prices {
+				sp[k] = x
+			}
+			sp["EUR"], sp["GBP"], sp["CAD"] = sp["USD"], sp["USD"], sp["USD"]
+			s.OPR = m.W.StdOPRs(h, len(s.OPR), sp)
+			if len(s.SPR) > 0 {
+				var st []forge.Key
+				for _, a := range gen.TopPEG(v.Balances, 100) {
+					for _, k := range m.Actors {
+						if k.FA() == a && !k.IsEth() {
+							st = append(st, k)
+						}
+					}
+				}
+				if len(st) > 30 {
+					st = st[:30]
+				}
+				s.SPR = m.W.StdSPRs(h, st, sp)
+			}
+		})
+	}
 	for h := first + 2; h < tip; h++ {
 		h := h
 		m.Schedule(h, func(v *gen.View, s *forge.BlockSpec) {
